@@ -4,6 +4,7 @@ import (
 	"encoding/json"
 	"fmt"
 	"os"
+	"os/exec"
 	"path/filepath"
 	"sort"
 	"strings"
@@ -61,6 +62,8 @@ var psTypes = []string{
 	"third.Flag", "[]third.Flag", "map[string][]third.Flag", "*[]third.Flag", "[]Flag8", "map[Label]Flag8", "Label", "[]*third.Inner", "map[third.Kind]*third.Inner", "[][]byte", "[3]third.Flag", "third.Cloner", "third.Cloner", "*third.Cloner",
 	// aliases declared in the origin package whose element type cannot be named from outside
 	"Steps", "StepIndex",
+	// a fourth package whose types have the simple names of package third's
+	"fourth.Kind", "[]fourth.Flag", "fourth.Inner", "map[fourth.Kind]third.Kind", "*fourth.Inner",
 }
 
 var psTags = []string{
@@ -133,7 +136,7 @@ func genC18(t *rapid.T) c18Case {
 
 func (c c18Case) originSource() string {
 	b := &strings.Builder{}
-	b.WriteString("package origin\n\nimport \"m/third\"\n\nvar _ third.Kind\n\ntype Flag8 uint8\n\ntype Label string\n\ntype step struct{ N int }\n\ntype Steps = []step\n\ntype StepIndex = map[string]step\n")
+	b.WriteString("package origin\n\nimport \"m/third\"\n\nimport \"m/fourth\"\n\nvar _ third.Kind\n\nvar _ fourth.Kind\n\ntype Flag8 uint8\n\ntype Label string\n\ntype step struct{ N int }\n\ntype Steps = []step\n\ntype StepIndex = map[string]step\n")
 	for _, o := range c.Origins {
 		fmt.Fprintf(b, "\ntype %s struct {\n", o.Name)
 		for _, f := range o.Fields {
@@ -150,6 +153,18 @@ func (c c18Case) originSource() string {
 	}
 	return b.String()
 }
+
+const fourthSource = `package fourth
+
+type Kind string
+
+type Flag uint16
+
+type Inner struct {
+	B string
+	C []int
+}
+`
 
 const thirdSource = `package third
 
@@ -396,18 +411,22 @@ func (c c18Case) testSource() string {
 func oracleC18(c c18Case) error {
 	m := modspec.Mod{Path: "m", Go: "1.21", Pkgs: []modspec.Pkg{
 		{Dir: "third", Name: "third", Other: []modspec.File{{Name: "third.go", Data: thirdSource}}},
+		{Dir: "fourth", Name: "fourth", Other: []modspec.File{{Name: "fourth.go", Data: fourthSource}}},
 		{Dir: "origin", Name: "origin", Other: []modspec.File{{Name: "origin.go", Data: c.originSource()}}},
 		{Dir: "decl", Name: "decl", Other: []modspec.File{{Name: "decl.go", Data: c.declSource()}, {Name: "partial_test.go", Data: c.testSource()}}},
 	}}
 	if c.WithDeepCopy {
-		m.Pkgs[2].Other = append(m.Pkgs[2].Other, modspec.File{Name: "holder.go",
+		m.Pkgs[3].Other = append(m.Pkgs[3].Other, modspec.File{Name: "holder.go",
 			Data: "package decl\n\nimport \"m/third\"\n\n// +gengo:deepcopy\ntype Holder struct {\n\tC third.Cloner\n\tP *third.Cloner\n\tN int\n}\n"})
 	}
 	dir := tempModule(&m)
 	defer os.RemoveAll(dir)
 	describe := func() string {
 		gen, _ := os.ReadFile(filepath.Join(dir, "decl", "zz_generated.partialstruct.go"))
-		return fmt.Sprintf("--- origin ---\n%s\n--- decl ---\n%s\n--- generated ---\n%s", clip(c.originSource(), 2500), clip(c.declSource(), 1500), clip(string(gen), 3500))
+		build := exec.Command("go", "build", "./...")
+		build.Dir = dir
+		bo, _ := build.CombinedOutput()
+		return fmt.Sprintf("--- origin ---\n%s\n--- decl ---\n%s\n--- generated ---\n%s\n--- go build ./... ---\n%s", clip(c.originSource(), 2500), clip(c.declSource(), 1500), clip(string(gen), 3500), clip(string(bo), 1500))
 	}
 	gens := []string{"partialstruct"}
 	if c.WithDeepCopy {
@@ -464,6 +483,9 @@ func oracleC18(c c18Case) error {
 // negative cases: not a struct / not defined from another named type
 type c18Neg struct {
 	Decl string `json:"decl"` // the declaration text after the tag line
+	// Via: how the generator is enabled for the declaration: "" (bare tag on the declaration) | sub (only a gengo:partialstruct:omit= tag
+	// on the declaration) | pkg (tag in the package doc) | global (Globals of the run)
+	Via string `json:"via,omitempty"`
 }
 
 var c18Negatives = []string{
@@ -476,11 +498,20 @@ var c18Negatives = []string{
 func oracleC18Neg(c c18Neg) error {
 	m := modspec.Mod{Path: "m", Go: "1.21", Pkgs: []modspec.Pkg{
 		{Dir: "origin", Name: "origin", Other: []modspec.File{{Name: "origin.go", Data: "package origin\n\ntype O struct{ A int }\n\ntype K int\n"}}},
-		{Dir: "decl", Name: "decl", Other: []modspec.File{{Name: "decl.go", Data: "package decl\n\nimport \"m/origin\"\n\nvar _ origin.O\n\n// +gengo:partialstruct\n" + c.Decl + "\n"}}},
+		{Dir: "decl", Name: "decl", Other: []modspec.File{{Name: "decl.go", Data: map[string]string{
+			"":       "package decl\n\nimport \"m/origin\"\n\nvar _ origin.O\n\n// +gengo:partialstruct\n",
+			"sub":    "package decl\n\nimport \"m/origin\"\n\nvar _ origin.O\n\n// +gengo:partialstruct:omit=A\n",
+			"pkg":    "// +gengo:partialstruct\npackage decl\n\nimport \"m/origin\"\n\nvar _ origin.O\n\n// x is what the package tag enables\n",
+			"global": "package decl\n\nimport \"m/origin\"\n\nvar _ origin.O\n\n// x is what the global tag enables\n",
+		}[c.Via] + c.Decl + "\n"}}},
 	}}
 	dir := tempModule(&m)
 	defer os.RemoveAll(dir)
-	res := mustRun(dir, []string{"./decl"}, []string{"partialstruct"}, nil)
+	var globals map[string][]string
+	if c.Via == "global" {
+		globals = map[string][]string{"gengo:partialstruct": {""}}
+	}
+	res := mustRun(dir, []string{"./decl"}, []string{"partialstruct"}, globals)
 	if res.Panic != "" {
 		return fmt.Errorf("`%s`: the generator panics instead of reporting an error: %s", c.Decl, clip(res.Panic, 400))
 	}
@@ -598,9 +629,11 @@ func TestC18(t *testing.T) {
 	})
 	if r.Shard == 0 || r.Replaying() {
 		ev.Enumerate(r, "negative", func(yield func(c18Neg) bool) {
-			for _, d := range c18Negatives {
-				if !yield(c18Neg{Decl: d}) {
-					return
+			for _, via := range []string{"", "sub", "pkg", "global"} {
+				for _, d := range c18Negatives {
+					if !yield(c18Neg{Decl: d, Via: via}) {
+						return
+					}
 				}
 			}
 		}, oracleC18Neg, nil, nil)
